@@ -91,11 +91,11 @@ def model_check_engine(maxtx, scheds, timeout=3000):
     """TLC on Rp2Engine (the matching algorithm as implemented): invariants on its output over every valid history of the bound, the
     sensitivity control (the repaired defect must be refuted), and the finished runs it printed (history, schedule, output)."""
     invs = "INVARIANT PickInv\nINVARIANT NoSpuriousFail\nINVARIANT EventsCovered\nINVARIANT HeapComplete\nPROPERTY AppendOnly\n"
-    cfg = _write_cfg(f"eng_{maxtx}_{scheds}.cfg", f'CONSTANTS MaxTx = {maxtx} Repush = "always" Scheds = "{scheds}"\nINIT Init\nNEXT Next\n{invs}CHECK_DEADLOCK FALSE\n')
+    cfg = _write_cfg(f"eng_{maxtx}_{scheds}.cfg", f'CONSTANTS MaxTx = {maxtx} Repush = "always" Scheds = "{scheds}" YearCheck = "instant_or_year"\nINIT Init\nNEXT Next\n{invs}CHECK_DEADLOCK FALSE\n')
     rc, out = tlc.run_tlc("Rp2Engine.tla", cfg, workers=common.NCPU, tag="engine", heap="8g", timeout=timeout)   # (no -coverage: its accounting of the recursive seeks exhausts the heap)
     # the finished runs are printed by a second pass without coverage accounting (one bound lower in thorough: the output is large)
     emit_tx = min(maxtx, 3) if scheds == "pairs" else maxtx
-    cfg_e = _write_cfg(f"eng_{maxtx}_{scheds}_emit.cfg", f'CONSTANTS MaxTx = {emit_tx} Repush = "always" Scheds = "{scheds}"\nINIT Init\nNEXT Next\nINVARIANT Emit\nCHECK_DEADLOCK FALSE\n')
+    cfg_e = _write_cfg(f"eng_{maxtx}_{scheds}_emit.cfg", f'CONSTANTS MaxTx = {emit_tx} Repush = "always" Scheds = "{scheds}" YearCheck = "instant_or_year"\nINIT Init\nNEXT Next\nINVARIANT Emit\nCHECK_DEADLOCK FALSE\n')
     rc_e, out_e = tlc.run_tlc("Rp2Engine.tla", cfg_e, workers=common.NCPU, tag="engineemit", heap="8g", timeout=timeout)
     runs = []
     for line in out_e.splitlines():
@@ -114,15 +114,22 @@ def model_check_engine(maxtx, scheds, timeout=3000):
         raise common.MachineryError(f"model checking Rp2Engine failed (rc={rc}):\n" + "\n".join(l for l in out.splitlines() if "CostModel" not in l)[-3000:])
     if not any(r["pc"] == "done" and len(r["out"]) >= 2 for r in runs):
         raise common.MachineryError("vacuity: Rp2Engine finished no run with several fractions")
-    cfg2 = _write_cfg(f"eng_{maxtx}_ctl.cfg", f'CONSTANTS MaxTx = {max(3, maxtx)} Repush = "if_larger" Scheds = "single"\nINIT Init\nNEXT Next\n{invs}CHECK_DEADLOCK FALSE\n')
+    cfg2 = _write_cfg(f"eng_{maxtx}_ctl.cfg", f'CONSTANTS MaxTx = {max(3, maxtx)} Repush = "if_larger" Scheds = "single" YearCheck = "instant_or_year"\nINIT Init\nNEXT Next\n{invs}CHECK_DEADLOCK FALSE\n')
     _rc2, out2 = tlc.run_tlc("Rp2Engine.tla", cfg2, workers=common.NCPU, tag="enginectl", heap="8g", timeout=timeout)
     res["repaired_defect_refuted"] = "is violated" in out2
     if not res["repaired_defect_refuted"]:
         raise common.MachineryError("vacuity: Rp2Engine accepts the conditional re-push (the defect repaired by 0041f1c)")
+    cfg3 = _write_cfg(f"eng_{maxtx}_ctl2.cfg", f'CONSTANTS MaxTx = 3 Repush = "always" Scheds = "pairs" YearCheck = "instant_only"\nINIT Init\nNEXT Next\n{invs}CHECK_DEADLOCK FALSE\n')
+    _rc3, out3 = tlc.run_tlc("Rp2Engine.tla", cfg3, workers=common.NCPU, tag="enginectl2", heap="8g", timeout=timeout)
+    res["year_change_defect_refuted"] = "is violated" in out3
+    if not res["year_change_defect_refuted"]:
+        raise common.MachineryError("vacuity: Rp2Engine accepts a lot carried across a change of local year at one instant (the defect repaired by f858ad6)")
     return res, runs
 
 
-_ENG_DAY = {1: 363, 2: 364, 3: 366}
+# instants 1 and 2: noon of 30 and 31 December 2019 (UTC); instant 3: 2020-01-01T00:00:01Z, written in UTC (local year 2020, yr = 2) or at
+# -05:00 (2019-12-31T19:00:01-05:00, local year 2019, yr = 1)
+_ENG_T = {1: 363 * 86400 + 43200, 2: 364 * 86400 + 43200, 3: 365 * 86400 + 1}
 
 
 def engine_job(run):
@@ -130,7 +137,7 @@ def engine_job(run):
     h = []
     for x in run["h"]:
         cls, typ = ("out", "sell") if x["k"] == "out" else ("in", "buy" if x["k"] == "buy" else "interest")
-        h.append({"cls": cls, "type": typ, "t": _ENG_DAY[x["t"]] * 86400 + 43200, "off": 0, "a1": 11, "a2": 0, "amt": x["amt"], "fee": 0, "price": x["p"], "ffee": 0,
+        h.append({"cls": cls, "type": typ, "t": _ENG_T[x["t"]], "off": -18000 if (x["t"] == 3 and x["yr"] == 1) else 0, "a1": 11, "a2": 0, "amt": x["amt"], "fee": 0, "price": x["p"], "ffee": 0,
                   "vin": -1, "vwf": -1, "vout": -1, "vfee": -1, "par": 0})
     sched = [[1970, run["m1"]]] + ([[2020, run["m2"]]] if run["m2"] != run["m1"] else [])
     lots = [p + 1 for p, x in enumerate(run["h"]) if x["k"] != "out"]
